@@ -96,7 +96,8 @@ type Prover struct {
 	seenLen   map[string]bool
 	found     map[*ssa.Call]bool
 	// sub maps the parameters of an expanded helper (pureExprOf) to the caller's values while its return expression is evaluated
-	sub map[ssa.Value]ssa.Value
+	sub        map[ssa.Value]ssa.Value
+	otherHeads map[*ssa.Function]map[*ssa.BasicBlock]bool
 }
 
 // inCallee evaluates f with the parameters of the expanded helper bound to the call's arguments and the helper's single path
@@ -141,8 +142,12 @@ func (p *Prover) resolve(v ssa.Value) ssa.Value {
 			return a // an argument: already resolved in the caller's context
 		}
 		var y ssa.Value = spillOnPath(v, p.Path.Blocks)
-		if phi, ok := y.(*ssa.Phi); ok && !p.loopHeads[phi.Block()] {
+		if phi, ok := y.(*ssa.Phi); ok && !p.isLoopHead(phi.Block()) {
 			y = resolvePhi(phi, p.Path.Blocks)
+		}
+		// on an interprocedural path: a helper's parameter is the argument, the result of its call the value it returned
+		if s, ok := p.Path.Sub[y]; ok {
+			y = s
 		}
 		if y == v {
 			break
@@ -150,6 +155,23 @@ func (p *Prover) resolve(v ssa.Value) ssa.Value {
 		v = y
 	}
 	return v
+}
+
+// isLoopHead: b is the head of a loop of its function (the functions of the helpers spliced into an interprocedural path are
+// looked at on demand).
+func (p *Prover) isLoopHead(b *ssa.BasicBlock) bool {
+	if b.Parent() == p.Fn || p.Path == nil || p.Path.Sub == nil {
+		return p.loopHeads[b]
+	}
+	if p.otherHeads == nil {
+		p.otherHeads = map[*ssa.Function]map[*ssa.BasicBlock]bool{}
+	}
+	h, ok := p.otherHeads[b.Parent()]
+	if !ok {
+		h = LoopHeads(b.Parent())
+		p.otherHeads[b.Parent()] = h
+	}
+	return h[b]
 }
 
 func (p *Prover) name(v ssa.Value) string {
@@ -289,6 +311,10 @@ func isIntType(t types.Type) bool {
 func NewProver(fn *ssa.Function, path *Path, site ssa.Instruction, extra []Fact) *Prover {
 	p := &Prover{Fn: fn, Path: path, loopHeads: LoopHeads(fn), seenLen: map[string]bool{}, found: map[*ssa.Call]bool{}}
 	p.Facts = append(p.Facts, extra...)
+	if path.Seq != nil {
+		p.collectSeq(site)
+		return p
+	}
 	done := false
 	for bi, b := range path.Blocks {
 		if done {
@@ -331,6 +357,62 @@ func NewProver(fn *ssa.Function, path *Path, site ssa.Instruction, extra []Fact)
 		}
 	}
 	return p
+}
+
+// collectSeq is the fact collection on an interprocedural path: the instructions in execution order up to the site; a branch
+// is taken towards the next block of the same function on the path.
+func (p *Prover) collectSeq(site ssa.Instruction) {
+	path := p.Path
+	seen := map[*ssa.BasicBlock]int{}
+	var upto []ssa.Instruction
+	for _, in := range path.Seq {
+		if in == site {
+			break
+		}
+		upto = append(upto, in)
+	}
+	for _, in := range upto {
+		p.instrFacts(in)
+		iff, ok := in.(*ssa.If)
+		if !ok {
+			continue
+		}
+		b := iff.Block()
+		// the occurrence of b on the path (a helper spliced twice has its blocks twice)
+		bi, n := -1, 0
+		for j, x := range path.Blocks {
+			if x == b {
+				if n == seen[b] {
+					bi = j
+					break
+				}
+				n++
+			}
+		}
+		seen[b]++
+		if bi < 0 || b.Succs[0] == b.Succs[1] {
+			continue
+		}
+		for j := bi + 1; j < len(path.Blocks); j++ {
+			if path.Blocks[j].Parent() == b.Parent() {
+				if path.Blocks[j] == b.Succs[0] || path.Blocks[j] == b.Succs[1] {
+					p.condFacts(iff.Cond, path.Blocks[j] == b.Succs[0])
+				}
+				break
+			}
+		}
+	}
+	for _, in := range upto {
+		call, ok := in.(*ssa.Call)
+		if !ok || p.found[call] {
+			continue
+		}
+		if cal := StaticCallee(&call.Call); cal != nil && cal.Pkg != nil && cal.Pkg.Pkg.Path() == "bytes" && (cal.Name() == "Index" || cal.Name() == "LastIndex" || cal.Name() == "IndexByte" || cal.Name() == "LastIndexByte") {
+			if ok, _ := p.Prove(p.Lin(call)); ok {
+				p.foundFacts(call)
+			}
+		}
+	}
 }
 
 func (p *Prover) add(l LForm, why string) { p.Facts = append(p.Facts, Fact{L: l, Why: why}) }
